@@ -1,0 +1,29 @@
+//! Verification hooks. Compiled only with `RUSTFLAGS="--cfg rustrtc_verif"`.
+//! Add-only wrappers that expose crate-private entry points to the external
+//! verification harness; nothing here is reachable in a normal build.
+
+/// H3: `IceConn` entry points that are `pub(crate)`.
+pub mod ice_conn {
+    use crate::transports::ice::IceSocketWrapper;
+    use crate::transports::ice::conn::IceConn;
+    use std::net::SocketAddr;
+    use std::sync::Arc;
+    use tokio::sync::watch;
+
+    pub fn new_with_rtcp(
+        socket_rx: watch::Receiver<Option<IceSocketWrapper>>,
+        rtcp_socket_rx: watch::Receiver<Option<IceSocketWrapper>>,
+        remote_addr: SocketAddr,
+        probation_max_packets: Option<u8>,
+    ) -> Arc<IceConn> {
+        IceConn::new_with_rtcp(socket_rx, rtcp_socket_rx, remote_addr, None, probation_max_packets)
+    }
+
+    pub fn set_remote_addr_from_selected_pair(conn: &IceConn, addr: SocketAddr) {
+        conn.set_remote_addr_from_selected_pair(addr, "verif");
+    }
+
+    pub fn set_remote_addr_from_signaling(conn: &IceConn, addr: SocketAddr) {
+        conn.set_remote_addr_from_signaling(addr, "verif");
+    }
+}
